@@ -27,7 +27,9 @@ def _res(okc, val):
 
 
 def _with_pos(s, pos):
-    return VStruct("Stream", {"bytes": s.fields["bytes"], "pos": VInt(pos)})
+    f = dict(s.fields)
+    f["pos"] = VInt(pos)
+    return VStruct(s.name, f)
 
 
 def m_rewind(I, args, pc):
@@ -216,6 +218,120 @@ def m_read_to_vec(I, args, pc):
 def m_safe_vec_bytes(I, args, pc):
     """safe_vec(n, None) used as the output buffer of read_to_end: an empty byte vector (capacity is not modelled)"""
     return ok(VStr(bstr.lit("")))
+
+
+# ---- faulty stream (C35): every `read` may return fewer bytes than asked for, or an I/O error ---------------------------
+SCHEDULES = {}
+
+
+def new_schedule(sid, shorts, errs):
+    """shorts[i] (z3 BV64, >= 1): most bytes the i-th read hands back; errs[i] (z3 Bool): the i-th read fails"""
+    SCHEDULES[sid] = (list(shorts), list(errs))
+
+
+def fstream(data, pos, sid):
+    return VStruct("FStream", {"bytes": data, "pos": pos if not isinstance(pos, int) else VInt(pos), "k": VInt(0), "sid": VInt(sid)})
+
+
+def _sched(s):
+    shorts, errs = SCHEDULES[bstr.cval(s.fields["sid"].e)]
+    k = s.fields["k"].e
+    short = shorts[-1]
+    err = z3.BoolVal(False)
+    for i in range(len(shorts) - 1, -1, -1):
+        short = z3.If(k == bv(i), shorts[i], short)
+        err = z3.If(k == bv(i), errs[i], err)
+    return short, err, len(shorts)
+
+
+def _f_next(s, pos, k):
+    f = dict(s.fields)
+    f["pos"], f["k"] = VInt(pos), VInt(k)
+    return VStruct(s.name, f)
+
+
+def m_fread(I, args, pc):
+    s, buf = args[0], args[1]
+    data, pos, n = s.fields["bytes"].e, s.fields["pos"].e, buf.e.n
+    short, err, K = _sched(s)
+    I.unwind(z3.And(pc, uge(s.fields["k"].e, bv(K))), "more reads than the %d scheduled ones" % K)
+    rem = z3.If(ule(pos, data.n), data.n - pos, bv(0))
+    c = z3.If(ule(n, rem), n, rem)
+    c = z3.If(ule(c, short), c, short)
+    got = bstr.substr(data, z3.If(ule(pos, data.n), pos, data.n), c)
+    bs = []
+    for i in range(buf.e.cap):
+        src = got.b[i] if i < got.cap else b8(0)
+        bs.append(z3.If(z3.And(z3.Not(err), ult(bv(i), c)), src, buf.e.b[i]))
+    newbuf = VStr(bstr.named(BStr(bs, n), I.side, "frd"))
+    res = VEnum("Result", z3.If(err, TAG("Result", "Err"), TAG("Result", "Ok")), {"Ok": [VInt(c)], "Err": [io_err()]})
+    return Effects(res, recv=_f_next(s, z3.If(err, pos, pos + c), s.fields["k"].e + bv(1)), args={1: newbuf})
+
+
+def m_fread_exact(I, args, pc):
+    from symex import Unsupported
+    raise Unsupported("read_exact on the faulty stream is not modelled")
+
+
+def _f_read_to_end(I, inner, limit, out, pc):
+    """std::io::Read::read_to_end through a Take over the faulty stream: reads until the limit is used up or the inner
+    stream is at its end; an inner error ends it with Err (bytes read so far stay in the buffer)"""
+    data = inner.fields["bytes"].e
+    st = inner
+    acc = out.e if isinstance(out, VStr) else bstr.lit("")
+    lim = limit
+    done = z3.BoolVal(False)
+    failed = z3.BoolVal(False)
+    total = bv(0)
+    K = len(SCHEDULES[bstr.cval(inner.fields["sid"].e)][0])
+    for _ in range(K + 1):
+        pos = st.fields["pos"].e
+        rem = z3.If(ule(pos, data.n), data.n - pos, bv(0))
+        short, err, _k = _sched(st)
+        finished_now = z3.And(z3.Not(done), lim == bv(0))       # Take with nothing left: no inner read
+        reads = z3.And(z3.Not(done), lim != bv(0))
+        I.unwind(z3.And(pc, reads, uge(st.fields["k"].e, bv(K))), "more reads than the %d scheduled ones" % K)
+        c = z3.If(ule(lim, rem), lim, rem)
+        c = z3.If(ule(c, short), c, short)
+        okread = z3.And(reads, z3.Not(err))
+        got = bstr.substr(data, z3.If(ule(pos, data.n), pos, data.n), z3.If(okread, c, bv(0)))
+        acc = bstr.named(bstr.concat(acc, got, I.ob(pc)), I.side, "rte")
+        total = total + z3.If(okread, c, bv(0))
+        failed = z3.Or(failed, z3.And(reads, err))
+        eof = z3.And(okread, c == bv(0))
+        st = _f_next(st, z3.If(okread, pos + c, pos), z3.If(reads, st.fields["k"].e + bv(1), st.fields["k"].e))
+        lim = z3.If(okread, lim - c, lim)
+        done = z3.Or(done, finished_now, z3.And(reads, err), eof)
+    I.unwind(z3.And(pc, z3.Not(done)), "read_to_end needs more than %d reads" % (K + 1))
+    res = VEnum("Result", z3.If(failed, TAG("Result", "Err"), TAG("Result", "Ok")), {"Ok": [VInt(total)], "Err": [io_err()]})
+    return res, VStr(acc), st
+
+
+def m_take_read_to_end_any(I, args, pc):
+    take, out = args[0], args[1]
+    inner = _take_src(I, take, pc)
+    if isinstance(inner, VStruct) and inner.name == "FStream":
+        res, newout, st = _f_read_to_end(I, inner, take.fields["limit"].e, out, pc)
+        return Effects(res, args={1: newout}, places=[(take.fields["src"].place, st)])
+    return m_take_read_to_end(I, args, pc)
+
+
+def m_safe_vec(I, args, pc):
+    """safe_vec(n, init): Some(byte) -> n copies (bounded by the buffer capacity); None -> empty vector with capacity"""
+    n, init = args[0], args[1]
+    if isinstance(init, VEnum) and init.payload.get("Some"):
+        el = init.payload["Some"][0]
+        I.unwind(z3.And(pc, ugt(n.e, bv(I.buffer_cap))), "safe_vec longer than %d" % I.buffer_cap)
+        return ok(VStr(BStr([el.e] * I.buffer_cap, n.e)))
+    return ok(VStr(bstr.lit("")))
+
+
+FAULT_OVERRIDES = {
+    "FStream::read": m_fread, "FStream::read_exact": m_fread_exact,
+    "FStream::rewind": m_rewind, "FStream::stream_position": m_stream_position, "FStream::seek": m_seek,
+    "FStream::take": m_take, "Take::read_to_end": m_take_read_to_end_any, "Take::into_inner": m_take_into_inner,
+    "FStream::read_to_vec": m_read_to_vec, "safe_vec": m_safe_vec,
+}
 
 
 WRITE_OVERRIDES = {
